@@ -317,7 +317,8 @@ Lemma roundtrippable_inv n :
     names_some (get_model nm (b_models n)) = true /\
     forallb (data_ok (b_models n) (get_model nm (b_models n))) (written_insts (get_model nm (b_models n))) = true.
 Proof.
-  unfold roundtrippable, covers_ok. destruct (b_top n) as [[tn tr]|] eqn:Et.
+  unfold roundtrippable. intro H0. apply andb_true_iff in H0 as [H0 _]. revert H0.
+  unfold roundtrippable0, covers_ok. destruct (b_top n) as [[tn tr]|] eqn:Et.
   - cbn zeta. intro H. apply andb_true_iff in H as [_ H]. rewrite forallb_forall in H. split.
     + apply forallb_forall. intros nm Hin. specialize (H nm Hin). repeat (apply andb_true_iff in H as [H ?]). assumption.
     + intros nm Hin. specialize (H nm Hin). repeat (apply andb_true_iff in H as [H ?]). split; assumption.
@@ -337,5 +338,6 @@ Qed.
 Theorem written_file_segmented n :
   roundtrippable n = true -> classify (emit n) = Ok (stmts_of n) /\ grammar (emit n) = Some (stmts_of n).
 Proof.
-  intro Hr. destruct (roundtrippable_inv n Hr) as [Hc _]. split; [apply classify_emit|apply grammar_emit]; exact Hc.
+  intro Hr. destruct (roundtrippable_inv n Hr) as [Hc _]. split; [apply classify_emit|apply grammar_emit]; try exact Hc.
+  unfold roundtrippable in Hr. apply andb_true_iff in Hr as [_ Ht]. exact Ht.
 Qed.
